@@ -89,12 +89,13 @@ PROPS["C04"] = {
     "level_note": "The external solvers (crate roots) are a parameter: completeness is conditional on 'returns every real root'; for a small non-zero leading coefficient the code solves a quadratic and "
                   "refines - an approximation covered only by the search (sign-change scan, 1e-6 / 0.001 tolerances). line_clip_to_bounds is a hand model checked exhaustively on an integer grid "
                   "(no Liang-Barsky theorem yet). sqrt is an uninterpreted function in the theorems. " + COMMON_NOTE,
-    "rule": "corr: line pairs (dyadic integer grid and reals; parallel, collinear, shared end, T-junction, point line forced in), clip, line coefficients, and curve/line (the implementation's own "
-            "parameters are fed back as roots and the generated loop must reproduce every hit in Float). search: exhaustive integer grids for the three line functions and line_clip_to_bounds "
+    "rule": "corr: line pairs (dyadic integer grid and reals; parallel, collinear, shared end, T-junction, point line forced in), clip, line coefficients, and curve/line (hook H3 hands over the polynomial the implementation "
+            "gave to the external solver and the raw roots it got back inside the same call: the generated function must have computed the same polynomial and must reproduce every hit - parameter, "
+            "line position, point - bit for bit in Float). search: exhaustive integer grids for the three line functions and line_clip_to_bounds "
             "(maximal sub-segment by exact enumeration), then random curves incl. near-degenerate cubics (leading coefficient 1e-9.5..1e-6.5), exact quadratics, straight curves, against lines "
             "through end points / control points / curve points, axis-parallel: every hit on curve and on line (1e-6, 0.001 snapped), filter equality, every clear sign change on a 1/2000 grid reported. "
             "Non-trivial: an intersection exists; distinct by input.",
-    "trusted_base": ["external cubic/quadratic solver (crate roots) is a parameter with an explicit contract", "hand model Model/Clip.lean of line_clip_to_bounds"],
+    "trusted_base": ["external cubic/quadratic solver (crate roots) is a parameter with an explicit contract", "hand model Model/Clip.lean of line_clip_to_bounds", "hook H3 (solver-root sink in curve_intersects_ray)"],
     "assumptions": ["solver contract for completeness; exact arithmetic for the on-line statement"],
 }
 
